@@ -81,6 +81,14 @@ func runSolver(ctx context.Context, s solverSpec, file string, timeoutS int) sol
 	_ = cmd.Run()
 	secs := time.Since(start).Seconds()
 	text := out.String()
+	// z3 prints warnings (e.g. about a pattern it will not use) before the answer
+	for strings.HasPrefix(text, "WARNING") {
+		if i := strings.Index(text, "\n"); i >= 0 {
+			text = text[i+1:]
+		} else {
+			break
+		}
+	}
 	first := strings.TrimSpace(strings.SplitN(text, "\n", 2)[0])
 	res := "error"
 	switch first {
